@@ -1,6 +1,8 @@
 import CfrVerif.Proofs.Frontier
 import CfrVerif.Proofs.FrontierExt
 import CfrVerif.Proofs.GameWF
+import CfrVerif.Proofs.Locks
+--! audit CfrVerif/Proofs/Locks.lean
 /-!
 # C07 — the sampled solvers are thread-count invariant once the random choices are fixed
 
@@ -10,6 +12,13 @@ the chance-sampled and the external-sampled multi-threaded solvers return, for e
 and every fair schedule, the strategies, bounds and iteration count of the single-threaded
 solvers, and make the same draws (as a multiset: the order in which workers reach an infoset
 first is up to the schedule).
+
+"Never fails because two workers meet at one infoset" is proved twice: as a count of visits
+(`active_infoset_visited_once` below) and, in `Proofs/Locks.lean` (audited with this property),
+over the interleaving model of the pool's mutexes (`Model/Locks.lean`): in every configuration
+any thread schedule can reach, no `try_lock().unwrap()` finds its mutex held
+(`external_workers_never_meet`, `external_closing_never_panics`), no configuration is a deadlock
+and every schedule ends (`external_pool_never_deadlocks`).
 -/
 set_option linter.unusedSectionVars false
 namespace Cfr
